@@ -30,6 +30,16 @@ class Unrealizable(Exception):
     (not a divergence; counted separately)."""
 
 
+class _Snap(str):
+    """a projected state frozen as its canonical JSON text (adapters may hand out live,
+    mutable objects)"""
+
+
+def _thaw(obs):
+    return [{'act': o['act'], 'state': json.loads(o['state']) if isinstance(o['state'], _Snap)
+             else o['state']} for o in obs]
+
+
 class Divergence:
     def __init__(self, kind, step, acts, expected, observed, obs, note=''):
         self.kind = kind            # 'state' | 'exception' | 'init'
@@ -50,7 +60,7 @@ class Divergence:
     def to_json(self):
         return {'kind': self.kind, 'step': self.step, 'acts': self.acts,
                 'expected': self.expected, 'observed': self.observed,
-                'obs': self.obs, 'note': self.note, 'signature': self.signature()}
+                'obs': _thaw(self.obs), 'note': self.note, 'signature': self.signature()}
 
 
 def _norm(adapter, s):
@@ -71,8 +81,9 @@ def replay_path(make_adapter, init_state, steps, free_run=True, obs_out=None):
         except Exception:
             return 0, Divergence('exception', -1, acts, json.loads(init_state), None, obs,
                                  traceback.format_exc())
-        obs.append({'act': {'name': 'Init'}, 'state': s})
-        if canon(s) != init_state:
+        cs = canon(s)
+        obs.append({'act': {'name': 'Init'}, 'state': _Snap(cs)})
+        if cs != init_state:
             return 0, Divergence('init', -1, acts, json.loads(init_state), s, obs)
         for i, (act, exp) in enumerate(steps):
             try:
@@ -83,8 +94,9 @@ def replay_path(make_adapter, init_state, steps, free_run=True, obs_out=None):
             except Exception:
                 return i, Divergence('exception', i, acts, json.loads(exp), None, obs,
                                      traceback.format_exc())
-            obs.append({'act': oact, 'state': s})
-            if canon(s) != exp or (oact is not act and canon(oact) != canon(act)):
+            cs = canon(s)
+            obs.append({'act': oact, 'state': _Snap(cs)})
+            if cs != exp or (oact is not act and canon(oact) != canon(act)):
                 d = Divergence('state', i, acts, json.loads(exp), s, obs)
                 if free_run:
                     # free run: keep feeding the remaining environment actions to the
@@ -92,13 +104,13 @@ def replay_path(make_adapter, init_state, steps, free_run=True, obs_out=None):
                     for act2, _ in steps[i + 1:]:
                         try:
                             o2 = ad.step(act2) or act2
-                            obs.append({'act': o2, 'state': _norm(ad, ad.project())})
+                            obs.append({'act': o2, 'state': _Snap(canon(_norm(ad, ad.project())))})
                         except Exception:
                             break
                 if free_run and hasattr(ad, 'quiesce'):
                     try:
                         for a2, s2 in ad.quiesce():
-                            obs.append({'act': a2, 'state': _norm(ad, s2)})
+                            obs.append({'act': a2, 'state': _Snap(canon(_norm(ad, s2)))})
                     except Exception:
                         d.note = 'quiesce raised: ' + traceback.format_exc()
                 return i, d
@@ -177,7 +189,7 @@ def _worker(args):
             if len(divs) >= 50:
                 break
         elif keep_obs:
-            kept.append(obs)
+            kept.append(_thaw(obs))
     return done, steps, divs, kept
 
 
